@@ -22,13 +22,16 @@ Monitors
   capabilities as originally declared (own frozen copies), and finally every spec is put into a fresh one-module diagram;
 * handler stubs return their ports in program order, which the generators permute against the declaration order
   (outputs are identified by name; payload tokens name the port they were returned for);
-* a `sys.monitoring` LINE hit counter on `DiagramExecutor.execute` turns a non-terminating scheduling loop into a
-  violation with a purely logical bound (no wall-clock);
-* PY_START reach counters on the anchored functions.
+* a `sys.monitoring` LINE step counter over every function defined in the modules of `DiagramExecutor` / `WiringDiagram`
+  (found through the public classes, so helpers that execute() is split into are counted whatever they are called) turns a
+  non-terminating scheduling loop into a violation with a purely logical bound per source line (no wall-clock);
+* PY_START reach counters on the same functions, keyed by their names in the tree under test: informational only. All
+  `require` minimums are behavioural (calls made, values handed to / received from the executor, results judged).
 """
 import copy
 import itertools
 import sys
+import types
 
 from rv import core
 from rv import c16_model as M
@@ -92,8 +95,56 @@ class LoopBudgetExceeded(BaseException):
     pass
 
 
+def _module_code_objects(mod):
+    """Every code object compiled from the source file of `mod`: module-level functions, methods of the classes defined there
+    (through staticmethod / classmethod / property / __wrapped__), and the code objects nested in them (generator expressions,
+    comprehensions, lambdas, local functions). -> {code: (qualname, is_function_entry)}. Purely structural: no name is assumed."""
+    fname = getattr(mod, "__file__", None)
+    found = {}
+    visited = set()
+
+    def add_code(code, entry):
+        if code.co_filename != fname or code in found:
+            return
+        found[code] = (code.co_qualname, entry)
+        for c in code.co_consts:
+            if isinstance(c, types.CodeType):
+                add_code(c, False)
+
+    def add_obj(obj, depth):
+        if id(obj) in visited or depth > 4:
+            return
+        visited.add(id(obj))
+        if isinstance(obj, (staticmethod, classmethod)):
+            return add_obj(obj.__func__, depth)
+        if isinstance(obj, property):
+            for f in (obj.fget, obj.fset, obj.fdel):
+                if f is not None:
+                    add_obj(f, depth)
+            return
+        if isinstance(obj, type):
+            if getattr(obj, "__module__", None) == mod.__name__:
+                for v in list(vars(obj).values()):
+                    add_obj(v, depth + 1)
+            return
+        code = getattr(obj, "__code__", None)
+        if isinstance(code, types.CodeType):
+            add_code(code, True)
+        inner = getattr(obj, "__wrapped__", None)
+        if inner is not None:
+            add_obj(inner, depth + 1)
+        inner = getattr(obj, "func", None)          # functools.partial and the like
+        if callable(inner):
+            add_obj(inner, depth + 1)
+
+    for v in list(vars(mod).values()):
+        add_obj(v, 0)
+    return found
+
+
 class Monitors:
-    """LINE hit counter on DiagramExecutor.execute + PY_START reach counters on the anchored functions."""
+    """LINE step counter over EVERY function of the modules that define DiagramExecutor / WiringDiagram (whatever the functions are
+    called and however execute() is split into helpers) + informational PY_START reach counters on the same functions."""
     TOOL = 4
 
     def __init__(self):
@@ -103,22 +154,14 @@ class Monitors:
         self.events = 0
         self.max_hits = 0
         self.reach = {}
-        self.codes = {}
-        self.missing = []
+        self.codes = {}        # id(code) -> reach key (function entries only)
+        self.all_codes = []    # strong references: the ids above stay valid
+        self.watched = {}      # module name -> number of code objects under the LINE counter
         self.installed = False
 
     def install(self):
         t = T()
         mon = sys.monitoring
-        targets = {
-            "PortType.can_flow_to": (t["wagent"].PortType, "can_flow_to"),
-            "PortType.require_flow_to": (t["wagent"].PortType, "require_flow_to"),
-            "WiringDiagram.connect": (t["wagent"].WiringDiagram, "connect"),
-            "WiringDiagram.required_capabilities": (t["wagent"].WiringDiagram, "required_capabilities"),
-            "_coerce_input": (t["rt"], "_coerce_input"),
-            "_coerce_output": (t["rt"], "_coerce_output"),
-            "DiagramExecutor.execute": (t["rt"].DiagramExecutor, "execute"),
-        }
         try:
             mon.use_tool_id(self.TOOL, "c16")
         except ValueError:
@@ -126,31 +169,35 @@ class Monitors:
             mon.use_tool_id(self.TOOL, "c16")
         mon.register_callback(self.TOOL, mon.events.PY_START, self._on_start)
         mon.register_callback(self.TOOL, mon.events.LINE, self._on_line)
-        for key, (owner, attr) in targets.items():
-            fn = getattr(owner, attr, None)
-            code = getattr(fn, "__code__", None)
-            self.reach[key] = 0
-            if code is None:
-                self.missing.append(key)
-                continue
-            self.codes[code] = key
-            ev = mon.events.PY_START
-            if key == "DiagramExecutor.execute":
-                ev |= mon.events.LINE
-                self.exec_code = code
-            mon.set_local_events(self.TOOL, code, ev)
+        # the modules are found through the PUBLIC classes; everything defined in them is counted
+        mods = []
+        for cls in (t["rt"].DiagramExecutor, t["wagent"].WiringDiagram, t["wagent"].PortType):
+            m = sys.modules.get(getattr(cls, "__module__", None))
+            if m is not None and m not in mods:
+                mods.append(m)
+        for m in mods:
+            found = _module_code_objects(m)
+            self.watched[m.__name__.rsplit(".", 1)[-1]] = len(found)
+            for code, (qual, entry) in found.items():
+                self.all_codes.append(code)
+                ev = mon.events.LINE
+                if entry:
+                    ev |= mon.events.PY_START
+                    self.codes[id(code)] = qual
+                    self.reach.setdefault(qual, 0)
+                mon.set_local_events(self.TOOL, code, ev)
         self.installed = True
 
     def uninstall(self):
         if self.installed:
             mon = sys.monitoring
-            for code in self.codes:
+            for code in self.all_codes:
                 mon.set_local_events(self.TOOL, code, 0)
             mon.free_tool_id(self.TOOL)
             self.installed = False
 
     def _on_start(self, code, offset):
-        k = self.codes.get(code)
+        k = self.codes.get(id(code))
         if k is not None:
             self.reach[k] += 1
 
@@ -158,11 +205,13 @@ class Monitors:
         if not self.armed:
             return
         self.events += 1
-        h = self.hits.get(line, 0) + 1
-        self.hits[line] = h
+        key = (id(code) << 20) | line
+        h = self.hits.get(key, 0) + 1
+        self.hits[key] = h
         if h > self.bound:
             self.armed = False
-            raise LoopBudgetExceeded("line %d of %s executed %d times (bound %d)" % (line, code.co_qualname, h, self.bound))
+            raise LoopBudgetExceeded("line %d of %s executed %d times in one execute() (bound %d)" % (
+                line, code.co_qualname, h, self.bound))
 
     def arm(self, bound):
         self.hits = {}
@@ -175,7 +224,7 @@ class Monitors:
             self.max_hits = max(self.max_hits, max(self.hits.values()))
 
     def suspend(self):
-        """Entering a nested execute(): put the counters of the surrounding one aside (the LINE events are per code object)."""
+        """Entering a nested execute(): put the counters of the surrounding one aside (a nested execution runs the same code)."""
         saved = (self.armed, self.hits, self.bound)
         self.armed = False
         return saved
@@ -193,7 +242,9 @@ def setup_shard(ctx):
 
 def teardown_shard(ctx):
     for k, v in MON.reach.items():
-        ctx.count("reach:" + k, v)
+        ctx.count("reach:" + k, v)          # informational: keyed by whatever the functions are called in this tree
+    for k, v in MON.watched.items():
+        ctx.maxc("code_objects_under_line_counter:" + k, v)
     ctx.count("loop_monitor_line_events", MON.events)
     ctx.maxc("line_hits_in_one_execute", MON.max_hits)
     MON.uninstall()
@@ -327,9 +378,16 @@ def plan(tier):
                 "capshare_queries_on_diagram_sharing_a_capability_set_object": 5000, "capshare_repeated_queries": 15000,
                 "capshare_queries_on_multi_module_diagram": 8000, "capshare_fresh_single_module_probes": 6000,
                 "loop_monitor_line_events": 100000,
-                "reach:PortType.can_flow_to": 441, "reach:PortType.require_flow_to": 1000,
-                "reach:WiringDiagram.connect": 1000, "reach:WiringDiagram.required_capabilities": 1000,
-                "reach:_coerce_input": 1000, "reach:_coerce_output": 1000, "reach:DiagramExecutor.execute": 1000,
+                # behavioural minimums (calls made / values handed over / results judged by this check); the reach:* counters
+                # are keyed by function names of the tree under test and are informational only
+                "can_flow_to_calls_judged": 441, "require_flow_to_calls_judged": 441,
+                "handler_output_values_returned": 20000, "handler_output_values_returned:raw": 5000,
+                "handler_output_values_returned:labelled-as-declared": 5000,
+                "handler_output_values_returned:labelled-against-declaration": 1000,
+                "handler_outputs_checked_in_report": 10000,
+                "external_input_values_supplied": 20000, "external_input_values_supplied:raw": 5000,
+                "external_input_values_supplied:labelled": 5000, "external_input_values_supplied:label-below-port": 200,
+                "external_input_deliveries_checked": 10000,
             }}
 
 
@@ -391,6 +449,7 @@ def sweep_accept(ctx, k):
             got = ps.can_flow_to(pd)
         except Exception as e:
             got = "raised %r" % (e,)
+        ctx.count("can_flow_to_calls_judged")
         if got is not exp:
             ctx.violation("can-flow-to-disagrees", "can_flow_to(%s -> %s) = %r, statement says %r" % (src, dst, got, exp), desc)
         try:
@@ -398,6 +457,7 @@ def sweep_accept(ctx, k):
             got = True
         except Exception:      # any refusal counts as "not accepted"
             got = False
+        ctx.count("require_flow_to_calls_judged")
         if got is not exp:
             ctx.violation("require-flow-to-" + ("accepts-illegal" if exp is False else "rejects-legal"),
                           "require_flow_to(%s -> %s): accepted=%r, statement says %r" % (src, dst, got, exp), desc)
@@ -694,6 +754,7 @@ def run_diagram(ctx, case):
                         where, mname, p, int(v.integrity), sm, sp, mods[sm]["outputs"][sp][1]), dict(desc, module=mname, port=p))
             else:
                 spec = s[1]
+                ctx.count("external_input_deliveries_checked")
                 if v.value != ext_token(mname, p, state["run"]):
                     ctx.violation("delivered-foreign-value", "%s: %s.%s has only an external source but received %r" % (
                         where, mname, p, v.value), dict(desc, module=mname, port=p))
@@ -741,6 +802,10 @@ def run_diagram(ctx, case):
             for p, spec in prog["ports"].items():
                 tok = token(mname, p, run)
                 out[p] = build(spec, tok)
+                ctx.count("handler_output_values_returned")
+                ctx.count("handler_output_values_returned:" + (
+                    "raw" if spec[0] != "tv" else "labelled-against-declaration" if (mname, p) in an["mislabelled"]
+                    else "labelled-as-declared" if p in mods[mname]["outputs"] else "labelled-on-undeclared-port"))
                 if (mname, p) in an["mislabelled"]:
                     state["poison"].add(tok)
                     state["rejected_invoked"] = "%s.%s (%s)" % (mname, p, an["mislabelled"][(mname, p)])
@@ -775,6 +840,13 @@ def run_diagram(ctx, case):
         state = {"run": run, "calls": [], "seen": {}, "poison": set(), "rejected_invoked": None, "an": an, "depth": depth,
                  "nested": [], "origin": origin}
         ext_real = {mn: {p: build(spec, ext_token(mn, p, run)) for p, spec in ports.items()} for mn, ports in ext_specs.items()}
+        for mn, ports in ext_specs.items():
+            for p, spec in ports.items():
+                ctx.count("external_input_values_supplied")
+                ctx.count("external_input_values_supplied:" + ("raw" if spec[0] != "tv" else "labelled"))
+                decl_in = cur["mods"].get(mn, {}).get("inputs", {}).get(p)
+                if spec[0] == "tv" and decl_in is not None and spec[1] == decl_in[0] and spec[2] < decl_in[1]:
+                    ctx.count("external_input_values_supplied:label-below-port")
         kwargs = {}
         if not enforce:
             kwargs["enforce_static_checks"] = False
@@ -794,7 +866,7 @@ def run_diagram(ctx, case):
                 ctx.count("later_phase_executions")
         saved = MON.suspend()
         frames.append(state)
-        MON.arm(bound + 4 * sum(len(v) for v in ext_specs.values()))
+        MON.arm(4 * (len(cur["order"]) + 2) * (size + sum(len(v) for v in ext_specs.values())) + 20)
         try:
             if ext_real or (len(accepted) + depth) % 2:
                 report = executor.execute(ext_real, **kwargs)
@@ -927,10 +999,12 @@ def run_diagram(ctx, case):
             if "missing-source" in prev["problems"] and "missing-source" not in an["problems"]:
                 ctx.count("later_phase_resolves:missing-source")
 
-        n = len(order)
+        # Logical step bound for ONE execute(), per source line of the modules under the LINE counter: a scheduler makes at most
+        # n + 1 passes (every pass but the last runs at least one module) and a pass touches every module, declared port, wire,
+        # external value and handler-returned value a constant number of times - however the work is split over helpers.
         nports = sum(len(m["inputs"]) + len(m["outputs"]) for m in view["modules"])
-        next_ = sum(len(v) for v in view["ext"].values())
-        bound = 4 * (n * (n + 1) + len(accepted) + nports + next_) + 20
+        nret = sum(len(prog["ports"]) for prog in view["handlers"].values())
+        size = len(order) + len(accepted) + nports + nret + 2
         nested_an.clear()
 
         for _ in range(ph["runs"]):
@@ -1023,6 +1097,7 @@ def judge(ctx, case, desc, an, state, outcome, report, err, check_inputs, token,
             if (m, p) in an["mislabelled"]:
                 continue
             exp_payload = None if prog["ports"][p][0] == "raw-none" else token(m, p, run)
+            ctx.count("handler_outputs_checked_in_report")
             T_ = T()["rt"].TypedValue
             if not isinstance(v, T_) or v.data_type.value != dt or int(v.integrity) != il or v.value != exp_payload:
                 ctx.violation("report-output-mislabelled", "report.modules[%s].outputs[%s] = %r, declared (%s, %d), handler returned %r" % (
